@@ -32,6 +32,10 @@ OrderActs ==
   {A("LimitOrder", [u |-> u, app |-> MApp, pair |-> 1, dir |-> d, price |-> p, amt |-> 150, offer |-> 200, life |-> l]) :
       u \in MUsers, d \in {"B", "S"}, p \in {9900, 10100}, l \in {0, 3600}}
   \cup {A("MarketOrder", [u |-> u, app |-> MApp, pair |-> 1, dir |-> d, amt |-> 150, offer |-> 250, life |-> 3600]) : u \in MUsers, d \in {"B", "S"}}
+  \* coins that do not belong to the pair (a third coin as offer coin, the right demand coin): never enabled in the model,
+  \* explored on the real code with the rest of the alphabet
+  \cup {A("LimitOrder", [u |-> "u2", app |-> MApp, pair |-> 1, dir |-> d, price |-> 10100, amt |-> 150, offer |-> 200, life |-> 3600,
+                          od |-> FeeDenom, dd |-> IF d = "B" THEN "uaa" ELSE "ubb"]) : d \in {"B", "S"}}
   \cup {A("MMOrder", [u |-> u, app |-> MApp, pair |-> 1, sellAmt |-> 300, minSell |-> 10000, maxSell |-> 10200,
                       buyAmt |-> 300, minBuy |-> 9800, maxBuy |-> 10000, life |-> 3600]) : u \in MUsers}
   \cup {A("CancelOrder", [u |-> u, app |-> MApp, pair |-> 1, id |-> i]) : u \in MUsers, i \in 1..MaxOid}
